@@ -647,19 +647,118 @@ def expand_ccond(e):
 # ----------------------------------------------------------------------------
 # numeric evaluator (replay only)
 # ----------------------------------------------------------------------------
+FORCE_BITS = [None]     # replay conditioning probe: evaluate with this binary precision instead of `prec` digits
+EXTREME = [0.0, 1.0]    # largest / smallest non-zero magnitude of any intermediate value of the last numeric() call
+NEAR_TIES: list = []   # diagnostics of the last numeric() call: comparisons / floors that almost tie (not exactly)
+
+
 def numeric(e, env: dict, model: Model | None = None, prec=50):
     """Evaluate a reference AST at a concrete point with mpmath (replay only).
-    env maps names to numbers; intermediates expand through `model`."""
+    env maps names to numbers; intermediates expand through `model`.
+
+    Side channel NEAR_TIES: every comparison whose operands differ by less than 1e-9 relative without being
+    equal, and every floor / Mod whose argument is that close to (but not on) an integer, is recorded.  At such
+    a point a double-precision evaluation may legitimately land on the other side of the discontinuity, so a
+    concrete disagreement there does not confirm a solver witness (core._replay_sat)."""
     import mpmath as mp
 
     mp.mp.dps = prec
+    if FORCE_BITS[0]:
+        mp.mp.prec = FORCE_BITS[0]
+    del NEAR_TIES[:]
+    EXTREME[0], EXTREME[1] = 0.0, 1.0
+
+    def _mag(v):
+        try:
+            a = abs(v)
+            if a > EXTREME[0]:
+                EXTREME[0] = a
+            if a != 0 and a < EXTREME[1]:
+                EXTREME[1] = a
+        except Exception:
+            pass
+        return v
+
+    def _tie(a, b, what, ex=True):
+        try:
+            if a != b and abs(a - b) <= mp.mpf("1e-9") * (1 + abs(a) + abs(b)):
+                NEAR_TIES.append(what)
+            elif a == b and not ex:
+                # an exact tie between values that double arithmetic cannot compute exactly (2/0.2, 1/sqrt(100) vs 0.1):
+                # the double evaluation lands on either side
+                NEAR_TIES.append(what + " (exact tie of values that are not exact in double arithmetic)")
+        except Exception:
+            pass
+
+    def _floor(a, what, ex=True):
+        r = mp.floor(a)
+        n = mp.nint(a)
+        _tie(a, n, what, ex)
+        return r
+
+    exmemo = {}
+
+    def exact(e):
+        """True when double arithmetic computes this sub-expression without any rounding at this point."""
+        k = id(e)
+        if k not in exmemo:
+            try:
+                exmemo[k] = (e, exact0(e))
+            except Exception:
+                exmemo[k] = (e, False)
+        return exmemo[k][1]
+
+    def _rep(v):
+        if isinstance(v, bool):
+            return True
+        try:
+            return mp.mpf(float(v)) == v
+        except Exception:
+            return False
+
+    def exact0(e):
+        k = e[0]
+        if k == "num":
+            return _rep(val(e[1]))
+        if k == "pi":
+            return False
+        if k == "var":
+            n = e[1]
+            if model is not None and n in model.assigns:
+                return exact(model.assigns[n])
+            return True
+        if k in ("neg", "pos", "not"):
+            return exact(e[1])
+        if k == "bin":
+            return exact(e[2]) and exact(e[3]) and _rep(ev(e))
+        if k == "call":
+            return all(exact(x) for x in e[2]) and _rep(ev(e))
+        if k == "rel":
+            return exact(e[2]) and exact(e[3])
+        if k in ("and", "or"):
+            return all(exact(x) for x in e[1])
+        if k == "cond":
+            return exact(e[1]) and exact(e[2] if truth(ev(e[1])) else e[3])
+        return False
 
     def val(q):
         if isinstance(q, Fraction):
             return mp.mpf(q.numerator) / mp.mpf(q.denominator)
         return mp.mpf(q)
 
+    evmemo = {}
+
     def ev(e):
+        k = id(e)
+        if k in evmemo:
+            return evmemo[k][1]
+        r = ev0(e)
+        if not isinstance(r, bool):
+            _mag(r)
+        evmemo[k] = (e, r)      # keeps e alive: ids of temporaries (expand_ccond) must not be reused
+        return r
+
+    def ev0(e):
         k = e[0]
         if k == "num":
             return val(e[1])
@@ -701,14 +800,15 @@ def numeric(e, env: dict, model: Model | None = None, prec=50):
             f = e[1]
             args = [num(ev(x)) for x in e[2]]
             if f == "Mod":
-                return args[0] - args[1] * mp.floor(args[0] / args[1])
+                return args[0] - args[1] * _floor(args[0] / args[1], "Mod", all(exact(x) for x in e[2]) and _rep(args[0] / args[1]))
             a = args[0]
             table = {"exp": mp.exp, "log": mp.log, "ln": mp.log, "sin": mp.sin, "cos": mp.cos,
                      "tan": mp.tan, "asin": mp.asin, "acos": mp.acos, "atan": mp.atan,
-                     "sqrt": mp.sqrt, "abs": abs, "Abs": abs, "floor": mp.floor}
+                     "sqrt": mp.sqrt, "abs": abs, "Abs": abs, "floor": (lambda q: _floor(q, "floor", exact(e[2][0])))}
             return table[f](a)
         if k == "rel":
             a, b = num(ev(e[2])), num(ev(e[3]))
+            _tie(a, b, e[1], exact(e[2]) and exact(e[3]))
             return {"Lt": a < b, "Gt": a > b, "Le": a <= b, "Ge": a >= b, "Eq": a == b}[e[1]]
         if k == "not":
             return not truth(ev(e[1]))
